@@ -125,7 +125,7 @@ def detoured(draw, tree, frm, path, enabled):
 
 @st.composite
 def wirings(draw, max_procs=3, features=('dotdot', 'split', 'leaf', 'glob',
-                                         'alias', 'output')):
+                                         'alias', 'output', 'deep')):
     tree, collections = draw(trees(want_collection='glob' in features
                                    and draw(st.booleans())))
     background = draw(st.booleans())
@@ -137,8 +137,12 @@ def wirings(draw, max_procs=3, features=('dotdot', 'split', 'leaf', 'glob',
     compartments = [b for b in all_branches if not inside(b, collections)]
     nprocs = draw(st.integers(1, max_procs))
     procs = []
+    ats = [draw(st.sampled_from(compartments)) for _ in range(nprocs)]
+    # branches that hold no process node anywhere below ('**' port targets)
+    clean = [b for b in all_branches if b and not any(
+        list(a[:len(b)]) == list(b) for a in ats)]
     for i in range(nprocs):
-        at = draw(st.sampled_from(compartments))
+        at = ats[i]
         # detours only if every node of the tree is known to exist
         det = background and 'dotdot' in features
         nports = draw(st.integers(1, 3))
@@ -150,8 +154,17 @@ def wirings(draw, max_procs=3, features=('dotdot', 'split', 'leaf', 'glob',
                 kinds.append('leaf')
             if 'glob' in features and collections:
                 kinds.append('glob')
+            if 'deep' in features and background and clean:
+                kinds.append('deep')
             kind = draw(st.sampled_from(kinds))
-            if kind == 'leaf':
+            if kind == 'deep':
+                # '**' port: the whole sub-branch, every leaf below it
+                B = draw(st.sampled_from(clean))
+                schema[port] = '**'
+                topology[port] = draw(detoured(tree, at, rel(at, B), det))
+                for r, _ in tree_leaves(getp(tree, B)):
+                    W.append([[port] + list(r), B + list(r)])
+            elif kind == 'leaf':
                 prev = [w[1] for w in W if len(w[0]) == 1]
                 if 'alias' in features and prev and \
                         draw(st.integers(0, 2)) == 0:
@@ -286,6 +299,9 @@ def labels(spec):
         for port, t in p['topology'].items():
             scan_topo(t)
         for port, s in p['schema'].items():
+            if s == '**':
+                out.add('deep_port')
+                continue
             if '_default' in s:
                 out.add('leaf_port')
             if '*' in s:
